@@ -39,9 +39,12 @@ def corpus(rng, cls, n):
         return [rng.choice([65, 66, 67, 68]) for _ in range(n)]
     raise ValueError(cls)
 
-def far_repeat(rng, n, dist):
-    """data whose second half repeats the first at distance `dist` (incompressible otherwise)"""
-    seg = [rng.randrange(256) for _ in range(min(dist, n))]
+def far_repeat(rng, n, dist, low_entropy=False):
+    """data that repeats with period `dist`. Incompressible within a period by default (blocks then tend to be stored);
+    with low_entropy the period is drawn from a small skewed alphabet, so blocks are Huffman coded and any long-range
+    match the compressor takes really appears in the stream"""
+    seg = [rng.randrange(256) for _ in range(min(dist, n))] if not low_entropy else \
+          [rng.choice(b"aaaabbbccdeefg hijkl") for _ in range(min(dist, n))]
     out = []
     while len(out) < n:
         out += seg + [rng.randrange(256) for _ in range(max(0, dist - len(seg)))]
